@@ -648,8 +648,9 @@ class IkeSa(object):
         payload_nonce = response.get_payload(Payload.Type.NONCE, encrypted)
         payload_ke = response.get_payload(Payload.Type.KE, encrypted)
 
-        # select the peers proposal.
-        if not payload_sa.proposals[0].is_subset(self.chosen_proposal):
+        # select the peers proposal. It must have exactly one transform of each type we offered
+        intersection = self.chosen_proposal.intersection(payload_sa.proposals[0])
+        if intersection is None or intersection != payload_sa.proposals[0]:
             raise NoProposalChosen('Responder proposal is not a subset of what we sent')
         self.chosen_proposal = payload_sa.proposals[0]
 
